@@ -132,3 +132,36 @@ Proof.
                     ltac:(unfold fuel_for; pose proof (strip_length inp) as H; rewrite Hst in H; lia))). }
   rewrite E. apply slice_stream_agree.
 Qed.
+
+(* ---- iterating: the items read from a slice and from a stream of the same bytes ---- *)
+Section IterateAgree.
+  Variable ro : parse_options.
+  Variable alpha : N -> bool.
+  Variable fast : bool.
+  Variable std_parse : N -> Z -> f64.
+
+  Lemma iterate_values_cross fuel n : forall s1 s2, CrossProofs.prel s1 s2 ->
+    Exists (fun r => r = PErr (XErr EFuel)) (iterate_values ro alpha fast std_parse fuel n s2) \/
+    Forall2 (rpres eq) (iterate_values ro alpha fast std_parse fuel n s1) (iterate_values ro alpha fast std_parse fuel n s2).
+  Proof.
+    induction n as [|n IH]; intros s1 s2 H; cbn [iterate_values]; [right; constructor|].
+    destruct (proj1 (cross_values ro alpha fast std_parse fuel) s1 s2 H) as [E|[E Hr]].
+    - left. destruct (next_value ro alpha fast std_parse fuel s2) as [[o|e] s2']; cbn [fst] in E; [discriminate|]. inversion E.
+      constructor. reflexivity.
+    - destruct (next_value ro alpha fast std_parse fuel s1) as [[[v1|]|[e1|k1]] s1']; destruct (next_value ro alpha fast std_parse fuel s2) as [[[v2|]|[e2|k2]] s2'];
+        cbn [fst snd rpres] in *; try contradiction; try discriminate E.
+      + inversion E; subst v2. destruct (IH s1' s2' Hr) as [Hx|Hf]; [left; constructor 2; exact Hx|right; constructor; [reflexivity|exact Hf]].
+      + right. constructor.
+      + destruct (IH s1' s2' Hr) as [Hx|Hf]; [left; constructor 2; exact Hx|right; constructor; [exact E|exact Hf]].
+      + destruct (IH s1' s2' Hr) as [Hx|Hf]; [left; constructor 2; exact Hx|right; constructor; [exact E|exact Hf]].
+  Qed.
+
+  Theorem iterate_slice_stream (s : bytes) n :
+    Forall2 (rpres eq) (iterate_values ro alpha fast std_parse (fuel_for (bytes_events s)) n (init_state SrcSlice (bytes_events s)))
+                       (iterate_values ro alpha fast std_parse (fuel_for (bytes_events s)) n (init_state SrcIo (bytes_events s))).
+  Proof.
+    destruct (iterate_values_cross (fuel_for (bytes_events s)) n _ _ (init_prel s)) as [Hx|Hf]; [|exact Hf].
+    exfalso. pose proof (proj1 (total_iterate ro alpha fast std_parse SrcIo (bytes_events s) n)) as Ht.
+    apply Exists_exists in Hx. destruct Hx as (x & Hin & ->). rewrite Forall_forall in Ht. exact (Ht _ Hin eq_refl).
+  Qed.
+End IterateAgree.
